@@ -14,7 +14,7 @@
 (* of the operation in flight) and resumes after the next Reset, so one    *)
 (* run reports every scenario the specification rejects.                   *)
 (***************************************************************************)
-EXTENDS Naturals, Sequences, FiniteSets, TLC, Json, IOUtils
+EXTENDS Naturals, Sequences, FiniteSets, TLC, Json, IOUtils, Versions
 
 Rec == ndJsonDeserialize(IOEnv.TRACE)
 N == Len(Rec)
@@ -30,6 +30,8 @@ tvars == <<pubOf, tokens, blobs, used, op, last, texts, l>>
 
 E == Rec[l]
 IsEvent(name) == l <= N /\ E.ev = name /\ l' = l + 1
+
+SetOf(seq) == {seq[k] : k \in 1..Len(seq)}
 
 TInit == I!Init /\ texts = << >> /\ l = 1
 
@@ -53,7 +55,9 @@ TFooterEncode == IsEvent("FooterEncode") /\ I!EncodeFooter(E.ok) /\ UNCHANGED te
 TClaimsEncode == IsEvent("ClaimsEncode") /\ I!EncodeClaims(E.ok) /\ UNCHANGED texts
 TSealRet ==
   /\ IsEvent("SealRet")
-  /\ IF E.ok THEN I!Emit(E.wire, E.nonce) /\ E.footer = op.footer     \* the token carries the footer it was given
+  /\ IF E.ok THEN /\ I!Emit(E.wire, SetOf(E.fresh))
+                  /\ E.footer = op.footer                                   \* the token carries the footer it was given
+                  /\ E.len = TokenPayloadLen(op.ver, op.purpose, E.clen)     \* and has the prescribed length
              ELSE I!SealFail(E.errc)
   /\ UNCHANGED texts
 
@@ -85,7 +89,9 @@ TUnsealRet ==
 TWrapCall == IsEvent("WrapCall") /\ I!WrapBegin(E.wkind, E.ver, E.ktype, E.key, E.with) /\ UNCHANGED texts
 TWrapRet ==
   /\ IsEvent("WrapRet")
-  /\ IF E.ok THEN I!WrapEmit(E.blob, E.nonce) ELSE I!WrapFail(E.errc)
+  /\ IF E.ok THEN /\ I!WrapEmit(E.blob, SetOf(E.fresh))
+                  /\ E.len = BlobLen(op.wkind, op.ver, E.klen)               \* fixed length per format (C05)
+             ELSE I!WrapFail(E.errc)
   /\ UNCHANGED texts
 TUnwrap ==
   /\ IsEvent("Unwrap")
